@@ -1370,9 +1370,24 @@ def gen_GeomPy(repo):
              'self._boundary_conditions["x"]=="periodical"': "px",
              'self._boundary_conditions["y"]=="periodical"': "py",
              'self._boundary_conditions["z"]=="periodical"': "pz"}
-    pro = [_norm(grid, st) for st in gn.body if isinstance(st, ast.Assign)]
-    if pro[:2] != ["i=self.get_cell_index(position)", "x,y,z=self.get_cell_coordinates(i)"]:
+    # structural prologue: L1 = self.get_cell_index(<param>); a, b, c = self.get_cell_coordinates(L1); LST = [] ... return LST
+    # (the names of the locals are free: a local rename does not lose the anchor)
+    npar = gn.args.args[1].arg
+    iloc = [st.targets[0].id for st in gn.body if isinstance(st, ast.Assign) and isinstance(st.targets[0], ast.Name)
+            and _norm(grid, st.value) == "self.get_cell_index(%s)" % npar]
+    cloc = [[e.id for e in st.targets[0].elts] for st in gn.body if isinstance(st, ast.Assign) and isinstance(st.targets[0], ast.Tuple)
+            and len(iloc) == 1 and _norm(grid, st.value) == "self.get_cell_coordinates(%s)" % iloc[0]
+            and all(isinstance(e, ast.Name) for e in st.targets[0].elts)]
+    lst = [st.targets[0].id for st in gn.body if isinstance(st, ast.Assign) and isinstance(st.targets[0], ast.Name)
+           and _norm(grid, st.value) == "[]"]
+    ret = gn.body[-1]
+    if len(iloc) != 1 or len(cloc) != 1 or len(cloc[0]) != 3 or len(lst) != 1 \
+            or not (isinstance(ret, ast.Return) and _norm(grid, ret.value) == lst[0]):
         raise AnchorLost("rdgridspace.py:get_neighbors prologue")
+    names = dict(names)
+    for k in ("x", "y", "z"):
+        names.pop(k, None)
+    names.update({cloc[0][0]: "x", cloc[0][1]: "y", cloc[0][2]: "z"})
     rules = []
     for st in gn.body:
         if isinstance(st, ast.If):
@@ -1380,7 +1395,7 @@ def gen_GeomPy(repo):
                 raise AnchorLost("rdgridspace.py:get_neighbors rule shape")
             arg = _single_call_arg(st.body[0].value, "append")
             inner = _single_call_arg(arg, "get_cell_index") if arg is not None else None
-            if inner is None or _norm(grid, st.body[0].value.func) != "neighbors.append":
+            if inner is None or _norm(grid, st.body[0].value.func) != lst[0] + ".append":
                 raise AnchorLost("rdgridspace.py:get_neighbors rule body")
             rules.append("(%s, %s)" % (_ExprTrMin(grid, names).tr(st.test), _triple(grid, inner, names, "get_neighbors")))
     if not rules:
@@ -1572,9 +1587,13 @@ def gen_GeomPy(repo):
     L.append("def edgeMatches (ei ej i j : Int) : Bool := %s" % em)
     gci = graph.func("get_cell_index", "RDGraphSpace")
     bad = None
+    # the local that holds `int(<position parameter>)`, whatever it is called (a local rename does not lose the anchor)
+    gpar = gci.args.args[1].arg
+    gloc = [st.targets[0].id for st in gci.body if isinstance(st, ast.Assign) and isinstance(st.targets[0], ast.Name)
+            and _norm(graph, st.value) == "int(%s)" % gpar]
     for st in gci.body:
-        if isinstance(st, ast.If) and any(isinstance(b, ast.Raise) for b in st.body):
-            bad = _ExprTrMin(graph, {"cell_index": "p", "self.size()": "size"}).tr(st.test)
+        if isinstance(st, ast.If) and any(isinstance(b, ast.Raise) for b in st.body) and len(gloc) == 1:
+            bad = _ExprTrMin(graph, {gloc[0]: "p", "self.size()": "size"}).tr(st.test)
     if bad is None:
         raise AnchorLost("rdgraphspace.py:get_cell_index range test")
     L.append("/-- `RDGraphSpace.get_cell_index`: raises when this holds -/")
